@@ -130,7 +130,7 @@ def Ctx.forwardOnMe (c : Ctx) (t : Topic) (p : PresMsg) (what : String) : Ctx :=
     else c.emit sid (presFrame t.name { p with what := what })) c
 
 /-- the category of a loaded topic is "group" (`topic.cat == types.TopicCatGrp`): not `me`, not `fnd`, not p2p -/
-def Topic.isGrpCat (t : Topic) : Bool := !(t.isMe || t.isFnd || isP2PKey t.name)
+def Topic.isGrpCat (t : Topic) : Bool := !(t.isMe || t.isFnd || isP2PKey t.name || t.name == "sys")
 
 /-- a group topic hears that the account of one of its subscribers (not the owner) is gone (handlePresence, fix 2f1) -/
 def goneMember (t : Topic) (p : PresMsg) : Bool :=
